@@ -164,6 +164,11 @@ func (x *inst) implCanon() ([]model.CanonKey, *memdb.VerifDumpT) {
 func (x *inst) stateHash(c []model.CanonKey) uint64 {
 	hs := fnv.New64a()
 	now := x.ks.NowMs
+	for _, k := range x.db().VerifDump().Keys {
+		if k.Hidden != "" {
+			fmt.Fprintf(hs, "H%q=%s|", k.Key, k.Hidden)
+		}
+	}
 	for _, k := range c {
 		fmt.Fprintf(hs, "%q|%s|%s|", k.Key, k.Type, k.Body)
 		if k.TTL != 0 {
